@@ -35,14 +35,34 @@
   (`ubjson_length_roundtrip`). Not in the theorem: high-precision numbers ('H', bigint/bigdec strings), indefinite containers
   (the real encoder only writes them when driven event by event without a length).
 
+  Proved here (BSON, the data-model core): Model JV.Model.Bson.encode = what `encode_bson` writes for a document root AND for an
+  array root (bson_encoder.hpp accepts it and writes the document keyed "0", "1", …; a scalar root is refused with
+  expected_bson_document by both) holding null / bool / every int64 (0x10 int32 when INT32_MIN <= v <= INT32_MAX, else 0x12 int64; an
+  integer above 2^63-1 is refused by both) / doubles (0x01, the 64 bits little-endian, NaN payloads included - there is no float32
+  shortcut) / text (0x02, int32 length counting the terminator, the text, 0x00; text that is not UTF-8 is refused by both) / byte
+  strings (0x05, int32 length, subtype 0x80) / arrays (0x04, a document whose names are std::to_string(index)) / documents (0x03) at
+  any nesting up to max_nesting_depth = 1024 (deeper is refused by both) - element names as C strings, every document's total length
+  back-patched as a little-endian int32 that counts itself and the trailing 0x00 - tied to the real encoder BYTE FOR BYTE and refusal
+  for refusal by the `bson-encoder-model` stream (int32/int64 boundaries with both neighbours, empty documents and arrays, arrays of
+  0…13 / 99…101 / 999…1001 items, nested arrays, multi-byte UTF-8 in values and names, U+0000 inside a text value, nesting 1023…1025).
+  For every value in `OKb` (root a container; names without 0x00 and in UTF-8; integers in [-2^63, 2^63); UTF-8 text; the whole
+  document shorter than 2^31 bytes; depth <= 1024) the reference BSON decoder (JV.Spec.Bson, the one used in C07; its own entry point
+  `decode` included, `bson_roundtrip_decode`) reads the bytes back as the documented image - everything itself, a byte string marked
+  "ext", a ROOT array as the document keyed by its indices - and leaves what follows untouched (`bson_roundtrip`); `OKb` lies inside
+  what the encoder accepts (`bson_domain_accepted`); int32 iff in range (`bson_int_width`); the length field (`bson_length_field`).
+  Bug-faithful and outside `OKb`: an element name containing 0x00 is written as it is (visit_key copies the bytes), so the document
+  written for {"a\0b": null} is not well-formed BSON (example below) - reported, not repaired here.
+  Not in the theorem: datetime / decimal128 / ObjectId / regex / code (tagged values), binary subtypes other than 0x80.
+
   Decided per case on the real code, not proved: the other semantic tags, string packing (stringref; D26 was
-  found there and repaired), typed arrays, MessagePack timestamps, UBJSON high-precision numbers, and the BSON round trip under
-  its documented mapping (see the check's streams).
+  found there and repaired), typed arrays, MessagePack timestamps, UBJSON high-precision numbers, and the BSON round trip of tagged
+  values under its documented mapping (see the check's streams).
 -/
 import JV.Proofs.CborRoundtrip
 import JV.Proofs.BigFloat
 import JV.Proofs.MsgpackRoundtrip
 import JV.Proofs.UbjsonRoundtrip
+import JV.Proofs.BsonRoundtrip
 namespace JV.Props.C06
 open JV Model.Cbor Spec.Cbor
 
@@ -199,6 +219,82 @@ theorem ubjson_length_roundtrip (n : Nat) (h : n < 2 ^ 63) (rest : Bytes) :
 theorem ubjson_representable_int (i : Int) : Model.Ubjson.representable (.int i) = true ↔ i < 2 ^ 63 := by
   simp [Model.Ubjson.representable]
 
+/-! ### BSON -/
+
+/-- the documented BSON mapping: everything itself, except that a byte string (written with the user-defined binary subtype 0x80)
+    comes back marked "ext", a nested array (a document keyed "0", "1", …) comes back as the array of its values, and a ROOT array
+    comes back as what it was written as: the document keyed by its indices -/
+abbrev toValueBson : CV → BV := Model.Bson.toBVRoot
+
+/-- encode then decode is the documented mapping on the BSON image of the core, for ALL values (any nesting), whatever follows the
+    document. `OKb`: the root is a container (`encode` answers `none` = expected_bson_document otherwise), element names without 0x00
+    and in UTF-8, integers in [-2^63, 2^63) (BSON has no uint64: the real encoder refuses the rest, as the model's `representable`
+    says), UTF-8 text, the whole document shorter than 2^31 bytes (so every nested length fits its int32), nesting depth ≤ 1024. -/
+theorem bson_roundtrip (v : CV) (hv : Model.Bson.OKb v) (rest : Bytes) :
+    ∃ fuel bytes, Model.Bson.encode v = some bytes ∧ Spec.Bson.decodeWith fuel (bytes ++ rest) = .ok (toValueBson v) rest := by
+  obtain ⟨b, h1, h2⟩ := Model.Bson.enc_dec v hv rest (Model.Bson.needV v) (Nat.le_refl _)
+  exact ⟨_, b, h1, h2⟩
+
+/-- … and more fuel never changes the answer -/
+theorem bson_roundtrip_any_fuel (v : CV) (hv : Model.Bson.OKb v) (rest : Bytes) (fuel : Nat) (hf : Model.Bson.needV v ≤ fuel) :
+    ∃ bytes, Model.Bson.encode v = some bytes ∧ Spec.Bson.decodeWith fuel (bytes ++ rest) = .ok (toValueBson v) rest :=
+  Model.Bson.enc_dec v hv rest fuel hf
+
+/-- … in particular the fuel the reference decoder's entry point gives itself is enough: `Spec.Bson.decode`, the very function the
+    real decoder is compared with in C07, reads the encoder's bytes back -/
+theorem bson_roundtrip_decode (v : CV) (hv : Model.Bson.OKb v) (rest : Bytes) :
+    ∃ bytes, Model.Bson.encode v = some bytes ∧ Spec.Bson.decode (bytes ++ rest) = .ok (toValueBson v) rest :=
+  Model.Bson.decode_encode v hv rest
+
+/-- the domain of the theorem lies inside what the encoder accepts (the model's `representable` is what the driver answers "err"
+    by, refusal for refusal with the real encoder) -/
+theorem bson_domain_accepted (v : CV) (hv : Model.Bson.OKb v) : Model.Bson.representable v = true :=
+  Model.Bson.representable_of_OKb v hv
+
+/-- int32 exactly when the value is in [INT32_MIN, INT32_MAX], int64 otherwise: type byte and width -/
+theorem bson_int_width (i : Int) :
+    (Model.Bson.typeCode (.int i), (Model.Bson.value (.int i)).length) =
+      if -2147483648 ≤ i ∧ i ≤ 2147483647 then (0x10, 4) else (0x12, 8) := by
+  by_cases h : -2147483648 ≤ i ∧ i ≤ 2147483647
+  · simp [Model.Bson.typeCode, Model.Bson.value, Model.Bson.fitsInt32, h, Model.Bson.int32Bytes, Model.Bson.length_leBytes]
+  · simp [Model.Bson.typeCode, Model.Bson.value, Model.Bson.fitsInt32, h, Model.Bson.int64Bytes, Model.Bson.length_leBytes]
+
+/-- every integer in [-2^63, 2^63), whichever width was chosen, is read back as itself (as the value of an element `name`) -/
+theorem bson_int_roundtrip (i : Int) (hlo : -(2 ^ 63 : Int) ≤ i) (hhi : i < 2 ^ 63) (name tl : Bytes) (ms : List (Bytes × BV)) (fuel : Nat)
+    (hn : Model.Bson.NameOK name) (hr : Spec.Bson.elements fuel tl = .ok ms []) :
+    Spec.Bson.elements (fuel + 1) (Model.Bson.typeCode (.int i) :: (name ++ 0 :: (Model.Bson.value (.int i) ++ tl))) =
+      .ok ((name, .int i "") :: ms) [] :=
+  Model.Bson.value_el (.int i) name tl ms fuel (by simpa [Model.Bson.OKv] using And.intro hlo hhi) hn
+    (by by_cases h : Model.Bson.fitsInt32 i = true <;>
+        simp [Model.Bson.value, h, Model.Bson.int32Bytes, Model.Bson.int64Bytes, Model.Bson.length_leBytes])
+    (by simp [Model.Bson.needV]) hr
+
+/-- the back-patched length field: the first four bytes of a finished document, read little-endian, are its total length (the four
+    bytes themselves and the trailing 0x00 included), and the last byte is 0x00 -/
+theorem bson_length_field (body : Bytes) (h : body.length + 5 < 2 ^ 32) :
+    Spec.leVal ((Model.Bson.doc body).take 4) = (Model.Bson.doc body).length ∧ (Model.Bson.doc body).getLast? = some 0 := by
+  constructor
+  · have : (Model.Bson.doc body).take 4 = Model.Bson.leBytes 4 (body.length + 5) := by
+      have h4 : 4 = (Model.Bson.leBytes 4 (body.length + 5)).length := by simp [Model.Bson.length_leBytes]
+      simp only [Model.Bson.doc, List.append_assoc]
+      conv => lhs; rw [h4]
+      exact List.take_left
+    rw [this, Model.Bson.leVal_leBytes4 _ h, Model.Bson.length_doc]
+  · simp [Model.Bson.doc]
+
+/-- a scalar root is refused (expected_bson_document); an array root is written as the document keyed by its indices -/
+theorem bson_root (v : CV) :
+    Model.Bson.encode v = match v with
+      | .map ms => some (Model.Bson.doc (Model.Bson.mapBody ms))
+      | .arr xs => some (Model.Bson.doc (Model.Bson.arrBody 0 xs))
+      | _ => none := by
+  cases v <;> rfl
+
+/-- array items are named by their index in decimal: "0" … "9", "10", "11", … -/
+example : (List.range 13).map Model.Bson.indexName =
+    [[48], [49], [50], [51], [52], [53], [54], [55], [56], [57], [49, 48], [49, 49], [49, 50]] := by decide
+example : Model.Bson.indexName 1000 = [49, 48, 48, 48] := by decide
+
 /-! ### non-vacuity -/
 /-- "0x10000000000000000p-3" -/
 example : Model.BigFloat.render (2 ^ 64) (-3) = [48, 120, 49, 48, 48, 48, 48, 48, 48, 48, 48, 48, 48, 48, 48, 48, 48, 48, 48, 112, 45, 51] := by
@@ -247,5 +343,36 @@ example : Spec.Ubjson.decode (Model.Ubjson.encode sampleU) = .ok (toValueUbjson 
     (3 * (Model.Ubjson.encode sampleU).length + 3) (by decide)
   rw [ubjson_item_is_decode]
   simpa using h
+
+/-! BSON: a sample in the domain, the bytes the real encoder writes for small documents (copied from its output), the reference decoder on
+    the sample's bytes, a root array, the refusals, and the bug-faithful corner that `OKb` excludes -/
+def sampleB : CV := .map [([97], .arr [.int 2147483647, .int 2147483648, .int (-2147483648), .int (-2147483649), .int (2 ^ 63 - 1), .int (-(2 ^ 63))]),
+                           ([195, 169], .str [240, 159, 152, 128, 0, 97]), ([98], .bytes [0, 255]), ([99], .map []), ([100], .null),
+                           ([101], .arr [.arr [], .arr [.bool true, .dbl 0x7ff8000000000001]]), ([], .dbl 0x3ff8000000000000)]
+theorem sampleB_ok : Model.Bson.OKb sampleB := by
+  refine ⟨rfl, ?_, by decide +kernel, by decide +kernel⟩
+  simp [sampleB, Model.Bson.OKv, Model.Bson.OKvList, Model.Bson.OKvMembers, Model.Bson.NameOK, Spec.Rfc8259.validUtf8]
+/-- { "a": 1, "b": [1, "a", [], {}] } -/
+example : Model.Bson.encode (.map [([97], .int 1), ([98], .arr [.int 1, .str [97], .arr [], .map []])]) =
+    some [0x34, 0, 0, 0, 0x10, 0x61, 0, 1, 0, 0, 0, 0x04, 0x62, 0, 0x25, 0, 0, 0, 0x10, 0x30, 0, 1, 0, 0, 0, 0x02, 0x31, 0, 2, 0, 0, 0, 0x61, 0,
+          0x04, 0x32, 0, 5, 0, 0, 0, 0, 0x03, 0x33, 0, 5, 0, 0, 0, 0, 0, 0] := by decide
+/-- { "a": 2^31, "b": -2^31-1, "d": bytes 01 02 } -/
+example : Model.Bson.encode (.map [([97], .int 2147483648), ([98], .int (-2147483649)), ([100], .bytes [1, 2])]) =
+    some [0x25, 0, 0, 0, 0x12, 0x61, 0, 0, 0, 0, 0x80, 0, 0, 0, 0, 0x12, 0x62, 0, 0xff, 0xff, 0xff, 0x7f, 0xff, 0xff, 0xff, 0xff,
+          0x05, 0x64, 0, 2, 0, 0, 0, 0x80, 1, 2, 0] := by decide
+/-- a root array [1, 2] is written as { "0": 1, "1": 2 }; the empty document is five bytes -/
+example : Model.Bson.encode (.arr [.int 1, .int 2]) = some [0x13, 0, 0, 0, 0x10, 0x30, 0, 1, 0, 0, 0, 0x10, 0x31, 0, 2, 0, 0, 0, 0] := by decide
+example : Model.Bson.encode (.map []) = some [5, 0, 0, 0, 0] ∧ Model.Bson.encode (.arr []) = some [5, 0, 0, 0, 0] := by decide
+example : toValueBson (.arr [.int 1, .int 2]) = .map [([48], .int 1 ""), ([49], .int 2 "")] := by rfl
+example : Model.Bson.encode (.int 1) = none ∧ Model.Bson.representable (.map [([97], .int (2 ^ 63))]) = false ∧
+    Model.Bson.representable (.map [([97], .str [255])]) = false := by decide
+set_option maxRecDepth 16384 in
+/-- the entry point `decode` on the sample's bytes: computed, and as an instance of the theorem -/
+example : (Model.Bson.encode sampleB).map Spec.Bson.decode = some (.ok (toValueBson sampleB) []) := by rfl
+example : ∃ bytes, Model.Bson.encode sampleB = some bytes ∧ Spec.Bson.decode bytes = .ok (toValueBson sampleB) [] := by
+  simpa using bson_roundtrip_decode sampleB sampleB_ok []
+/-- why `OKb` asks for names without 0x00: the bytes written for { "a\0b": null } are cut at the 0x00 by any reader of C strings - the
+    reference decoder finds an element of type 0x62 ('b') next and calls the document ill-formed -/
+example : (Model.Bson.encode (.map [([97, 0, 98], .null)])).map Spec.Bson.decode = some .illformed := by rfl
 
 end JV.Props.C06
